@@ -562,6 +562,11 @@ class TransferManager(BaseManager):
 
         # Downloads will just get remotely queued
         for download in downloads:
+            # Never start a second attempt while the previous one is still in
+            # flight: the slot is the only handle used to cancel the attempt
+            if download._remotely_queue_task and not download._remotely_queue_task.done():
+                continue
+
             download._remotely_queue_task = asyncio.create_task(
                 self._queue_remotely(download),
                 name=f'queue-remotely-{task_counter()}'
@@ -572,6 +577,9 @@ class TransferManager(BaseManager):
 
         # Uploads should be initialized and uploaded if possible
         for upload in uploads[:free_upload_slots]:
+            if upload._transfer_task and not upload._transfer_task.done():
+                continue
+
             upload._transfer_task = asyncio.create_task(
                 self._initialize_upload(upload),
                 name=f'initialize-upload-{task_counter()}'
